@@ -4,7 +4,7 @@ use crate::oracles;
 use crate::plangen::{SetupOpts, Weights, plan_strategy};
 use crate::props::common::{base_report, judge, run_plan};
 use crate::runner::{Args, CaseReport, Failure, Mode, RunPlan, Spec, Tier, drive};
-use crate::world::{Apply, NoObserver, Op, Plan, Regime};
+use crate::world::{Apply, NoObserver, Op, Plan, Regime, Cfg};
 use proptest::prelude::*;
 
 pub fn exec(plan: &Plan, mode: Mode) -> Result<CaseReport, Failure> {
@@ -64,6 +64,8 @@ pub fn main(args: &Args) -> i32 {
         regimes: vec![Regime::Causal, Regime::Causal, Regime::Unrestricted],
         retention: 2..=5,
         twin: true,
+        // one history in four runs with "snapshots never expire"
+        cfgs: vec![Cfg::default(), Cfg::default(), Cfg::default(), Cfg { ttl: u64::MAX, ..Cfg::default() }],
         ..SetupOpts::default()
     };
     let weights = Weights {
